@@ -22,7 +22,7 @@ type c07Input struct {
 // c07JSONData: labels a, b, c as JSON values of several types (values spelled so that every rendering agrees).
 var c07JSONData = func() []mockq.Rec {
 	var out []mockq.Rec
-	for i, l := range []string{`{"a":1,"b":2,"c":"x"}`, `{"a":1}`, `{"a":true,"c":"x"}`, `{"b":-3,"c":"y"}`, `{"a":"1","b":"2"}`, `{"c":false}`, `{}`} {
+	for i, l := range []string{`{"a":1,"b":2,"c":"x"}`, `{"a":1}`, `{"a":true,"c":"x"}`, `{"b":-3,"c":"y"}`, `{"a":"1","b":"2"}`, `{"c":false}`, `{}`, `{"a":7654321.5,"b":0.00001,"c":"x"}`} {
 		out = append(out, mockq.Rec{TS: int64(i+1) * sec, Line: l})
 	}
 	return out
@@ -182,6 +182,7 @@ func c07Check(r *vkit.Run, in c07Input) bool {
 			delete(gl, refmodel.ErrorLabel)
 			delete(wl, refmodel.ErrorLabel)
 			delete(gl, refmodel.ErrorDetails)
+			delete(wl, refmodel.ErrorDetails)
 		}
 		if labelsForCompare(gl) != labelsForCompare(wl) {
 			fail(fmt.Sprintf("record %d (%q, labels %s): final labels are %s, expected %s", i, data[i].Line, refmodel.Labels(mockq.InitialLabels(data[i])).Key(), labelsForCompare(gl), labelsForCompare(wl)), labelsForCompare(gl), labelsForCompare(wl))
@@ -250,7 +251,7 @@ func c07Run(r *vkit.Run) {
 			}
 		}
 	}
-	r.Note("bounds", fmt.Sprintf("%d records (all 8 subsets of {a=1,b=2,c=x} x 8 lines with SGR sequences (ESC [ and U+009B introducers), lone ESC, bracket text without ESC) x all single stages, ordered pairs and triples (quick: a third of the triples) over %d stages: label_format renames/templates (incl. missing source, failing template, overwriting), line_format (labels, __line__, __timestamp__, failing, missing label), drop/keep with names and =,!=,=~,!~ matchers, decolorize; all single stages and ordered pairs again after | json over 7 JSON lines whose a, b, c are numbers, booleans and strings", len(c07Data), len(c07S)))
+	r.Note("bounds", fmt.Sprintf("%d records (all 8 subsets of {a=1,b=2,c=x} x 8 lines with SGR sequences (ESC [ and U+009B introducers), lone ESC, bracket text without ESC) x all single stages, ordered pairs and triples (quick: a third of the triples) over %d stages: label_format renames/templates (incl. missing source, failing template, overwriting), line_format (labels, __line__, __timestamp__, failing, missing label), drop/keep with names and =,!=,=~,!~ matchers, decolorize; all single stages and ordered pairs again after | json over 8 JSON lines whose a, b, c are numbers, booleans and strings", len(c07Data), len(c07S)))
 }
 
 func c07Replay(r *vkit.Run, v vkit.Violation) *vkit.Violation {
